@@ -23,7 +23,7 @@ from __future__ import annotations
 import dataclasses
 import sys
 import warnings
-from typing import Callable, MutableSet, TypeVar, overload
+from typing import Callable, Mapping, MutableSet, TypeVar, overload
 
 from typelib import constants
 
@@ -62,6 +62,9 @@ def slotted(  # noqa: C901
     """
 
     def _slots_setstate(self, state):
+        # A user-defined `__getstate__` hands back a plain mapping of attributes.
+        if isinstance(state, Mapping):
+            state = (state,)
         for param_dict in filter(None, state):
             for slot, value in param_dict.items():
                 object.__setattr__(self, slot, value)
@@ -109,10 +112,11 @@ def slotted(  # noqa: C901
         cls_dict.pop("__weakref__", None)
 
         # Pickle fix for frozen dataclass as mentioned in https://bugs.python.org/issue36424
-        # Use only if __getstate__ and __setstate__ are not declared and frozen=True
-        if (
-            all(param not in cls_dict for param in ["__getstate__", "__setstate__"])
-            and cls.__dataclass_params__.frozen
+        # Use only if __setstate__ is not declared and frozen=True, or if a lone
+        #   __getstate__ is declared: without an instance `__dict__` the default restore
+        #   has nowhere to put the state it returns.
+        if "__setstate__" not in cls_dict and (
+            cls.__dataclass_params__.frozen or "__getstate__" in cls_dict
         ):
             cls_dict["__setstate__"] = _slots_setstate
 
